@@ -369,6 +369,23 @@ def enrich_object(obj, text=True):
     )
 
 
+def enrich_drillhole_group(ws, grp):
+    """What the fast path of Concatenator.copy treats separately: plain (non-concatenated) children
+    of the group - an attached file and a comment with a fixed date - and, on the first hole,
+    interval data whose name contains '/' (stored under an escaped name in the file)."""
+    from geoh5py.data import Data
+
+    grp.add_file(b"\x00c12 attached bytes\xff", name="attached.dat")
+    ws.create_entity(
+        Data,
+        entity={"name": "UserComments", "association": "OBJECT", "parent": grp,
+                "values": [{"Author": "c12", "Date": "2024-03-01T00:00:00", "Text": "group comment"}]},
+        entity_type={"primitive_type": "TEXT"},
+    )
+    hole = sorted((c for c in grp.children if is_a(c, "Drillhole")), key=lambda c: c.name)[0]
+    hole.add_data({"Au g/t": {"from-to": np.array([[0.0, 5.0], [5.0, 15.0], [15.0, 25.0]]), "values": np.array([0.25, 1.25, 2.75])}})
+
+
 def enrich_group(ws, grp):
     """Sub-tree of depth 2 below a group: an enriched Points, and a ContainerGroup holding a Curve."""
     from geoh5py.groups import ContainerGroup
@@ -397,6 +414,8 @@ def build(history) -> dict:
         enrich_object(src, text=history.get("enrich", "full") == "full")
     elif kind == "group" and cls != "RootGroup" and not is_a(src, "Concatenator"):
         enrich_group(ws_a, src)
+    elif kind == "group" and is_a(src, "Concatenator"):
+        enrich_drillhole_group(ws_a, src)
     elif cls == "RootGroup":
         enrich_group(ws_a, ContainerGroup.create(ws_a, name="G"))
     if kind == "data":
